@@ -19,6 +19,9 @@ TLA_CP = TLA_JAR + ":/opt/veriftools/tla/CommunityModules-deps.jar"
 BASE_CFLAGS = ["-std=gnu99", "-O1", "-g", "-DHAVE_CONFIG_H", "-DUPIPE_VERIF",
                "-D_GNU_SOURCE", "-I" + REPO, "-I" + os.path.join(REPO, "include"),
                "-I" + HARNESS, "-Wno-unused-function", "-fno-strict-aliasing"]
+if os.path.realpath(REPO) != "/repo":
+    # a git worktree lacks the generated config.h files: fall back to /repo's
+    BASE_CFLAGS += ["-idirafter", "/repo", "-idirafter", "/repo/include"]
 
 
 class ToolError(Exception):
